@@ -15,7 +15,7 @@ import itertools
 import numpy as np
 
 PROP = 'C17'
-TARGETS = ['T17']
+TARGETS = ['T17', 'T17p', 'T17m']
 LEAN_MODULES = ['HdVerif.Props.C17']
 MODEL_MODULES = ['HdVerif.Model.Coding']
 NAMESPACE = 'HdVerif.C17'
@@ -26,14 +26,16 @@ RULE = ('alphabet = 3 schemes (SRT, SCT, one other) x 4 values (a retired SRT va
         'pair matrix), one constructed value, or one from_dataset call; non-trivial = pair with equal normalised key but '
         'different representation/meaning/alias side, constructor value by (length, form), from_dataset by presence pattern')
 ASSUMPTIONS = [
-    'pydicom Code.__eq__/__hash__ as installed in /venv (pydicom 3.0.x) are modelled by hand (Model/Coding.lean codeEq, hashInput)',
-    'snomed_mapping["SRT"] enters the theorems as an arbitrary partial function `retired`',
+    'pydicom Code.__eq__/__ne__/__hash__ are TRANSLATED from the installed pydicom source on every run (T17p: pydCodeEq, pydEqOtherReads, '
+    'pydHashArgs, pydNeNegatesEq, pydCodeFields) - translated, not trusted; the model driver uses the retired-scheme table regenerated '
+    'from pydicom.sr._snomed_dict (T17m)',
+    'snomed_mapping enters the theorems as an arbitrary function `retired s v`',
     'Python str hash enters as an arbitrary function h; len(str) is the number of code points (= Lean String.length)',
     'deepcopy yields a new object with equal content (exercised on every from_dataset(copy=True) case)',
     'what counts as a URN or URL is what the constructor tests (prefix "urn:" or "://" inside); the oracle only uses values that are '
     'unambiguously one or the other',
 ]
-MODELLED_NOT_VERIFIED = ['pydicom.sr.coding.Code', 'pydicom Dataset attribute storage / file writer+reader', 'copy.deepcopy',
+MODELLED_NOT_VERIFIED = ['pydicom Dataset attribute storage / file writer+reader', 'copy.deepcopy',
                          'Python == dispatch and set/dict insertion']
 
 CODE_KWS = ('CodeValue', 'LongCodeValue', 'URNCodeValue')
@@ -155,12 +157,12 @@ def _relations(ctx, reqs, pending, variant=0):
                 st4, hit = _try(lambda: {a: 1}.get(b) == 1)
                 if st4 != 'ok' or bool(hit) != bool(e):
                     ctx.fail(case, f'dict lookup of b in {{a: 1}} gives {hit} but a == b is {e}', site='dict')
-                reqs.append(('setLen2', {'a': _enc(a), 'b': _enc(b), 'retired': retired}))
+                reqs.append(('setLen2', {'a': _enc(a), 'b': _enc(b)}))
                 pending.append((dict(case, what='setLen2'), ('ok', ln if st3 == 'ok' else None)))
-            reqs.append(('eq', {'a': _enc(a), 'b': _enc(b), 'retired': retired}))
+            reqs.append(('eq', {'a': _enc(a), 'b': _enc(b)}))
             pending.append((case, ('ok', bool(e))))
             if (i + j) % 7 == 0:
-                reqs.append(('ne', {'a': _enc(a), 'b': _enc(b), 'retired': retired}))
+                reqs.append(('ne', {'a': _enc(a), 'b': _enc(b)}))
                 pending.append((dict(case, what='ne'), ('ok', bool(ne))))
     ctx.exhaustive.append(f'alphabet {variant}: all {n * n} ordered pairs of the {n}-object alphabet (==, !=, hash, set, dict)')
     # relations on the real results (not via the key)
@@ -420,6 +422,69 @@ def _from_code(ctx, objs, retired, reqs, pending):
         pending.append((case, ('ok', {'concept': sorted(_ds_pairs(c))})))
 
 
+# ------------------------------------------------------------------ 4. mutation after construction
+MUT_KWS = ['CodeMeaning', 'CodingSchemeDesignator', 'CodingSchemeVersion', 'CodeValue', 'LongCodeValue', 'URNCodeValue']
+
+
+def _mutations(ctx, objs, alias, reqs, pending):
+    """attribute assignments / deletions on a copy of a concept, then == in both directions with another object"""
+    from copy import deepcopy
+    concepts = [(d, o) for d, o in objs if d['cls'] == 'concept']
+    values = sorted({d['value'] for d, _ in objs})
+    schemes = sorted({d['scheme'] for d, _ in objs})
+    for idx in range(ctx.n(300, 3000)):
+        r = ctx.rng('mut', idx)
+        d0, c0 = concepts[idx % len(concepts)]
+        dother, other = r.choice(objs)
+        ops = []
+        for _ in range(r.choice([1, 1, 2, 3])):
+            kw = r.choice(MUT_KWS)
+            if r.random() < 0.25:
+                ops.append([kw])
+            else:
+                v = {'CodeMeaning': r.choice(['Brain', 'changed']), 'CodingSchemeDesignator': r.choice(schemes),
+                     'CodingSchemeVersion': r.choice(['20200101', '2.0'])}.get(kw) or r.choice(values)
+                ops.append([kw, v])
+        c = deepcopy(c0)
+        before = _ds_pairs(c)
+        applied = True
+        for op in ops:
+            try:
+                if len(op) == 1:
+                    if op[0] in c:
+                        delattr(c, op[0])
+                else:
+                    setattr(c, op[0], op[1])
+            except Exception:  # noqa: BLE001
+                applied = False
+        if not applied:
+            continue
+        keeps = all(len(op) == 2 or op[0] not in ('CodeMeaning', 'CodingSchemeDesignator') for op in ops)
+        st1, ab = _try(lambda: c == other)
+        st2, ba = _try(lambda: other == c)
+        st3, aa = _try(lambda: c == c)
+        case = {'what': 'mutated', 'concept': d0, 'ops': ops, 'other': dother}
+        present = [k for k in CODE_KWS if k in c]
+        ctx.case(sample=case if idx % 101 == 0 else None, nontrivial_key=('mut', tuple(op[0] + ('=' if len(op) == 2 else '-') for op in ops), len(present), keeps),
+                 mutation_keeps_readable=keeps, mutation_value_attrs=len(present))
+        if keeps:
+            # the setters cannot break the equivalence: == answers in both directions, symmetric, reflexive
+            if st1 != 'ok' or st2 != 'ok' or bool(ab) != bool(ba):
+                ctx.fail(case, f'after attribute assignments: a == b -> {st1}:{ab}, b == a -> {st2}:{ba}', site='mutated-symm')
+            if st3 != 'ok' or not aa:
+                ctx.fail(case, f'after attribute assignments a == a -> {st3}:{aa}', site='mutated-refl')
+            if len(present) == 1 and st1 == 'ok':
+                dm = {'scheme': str(c.CodingSchemeDesignator), 'value': str(c[present[0]].value),
+                      'version': str(c.CodingSchemeVersion) if 'CodingSchemeVersion' in c else None}
+                # alias knowledge for the (possibly new) scheme/value pair comes from the same table the alphabet used
+                want = _okey(alias, dm) == _okey(alias, dother)
+                if bool(ab) != want:
+                    ctx.fail(case, f'mutated concept {dm} == other is {ab}, keys say {want}', site='mutated-key')
+        reqs.append(('mutatedEq', {'ds': before, 'ops': ops, 'other': _enc(other)}))
+        pending.append((case, ('ok', {'ds': sorted(_ds_pairs(c)), 'ab': [st1, bool(ab) if st1 == 'ok' else _kind(ab)],
+                                      'ba': [st2, bool(ba) if st2 == 'ok' else _kind(ba)]})))
+
+
 # ------------------------------------------------------------------ run
 def _compare(ctx, pending, answers):
     seen = {}
@@ -456,7 +521,20 @@ def _compare_inner(ctx, pending, answers, disagree):
             continue
         if impl[0] == 'err':
             continue
-        if what == 'ctor':
+        if what == 'mutated':
+            m = model[1]
+
+            def flat(x):
+                return ['ok', x['ok']] if 'ok' in x else ['err', x['err']]
+            got = {'ds': sorted(map(list, m['ds'])), 'ab': flat(m['ab']), 'ba': flat(m['ba'])}
+            want = dict(impl[1])
+            # error kinds: ok-vs-error only
+            for k in ('ab', 'ba'):
+                if got[k][0] == 'err' and want[k][0] == 'err':
+                    got[k] = want[k]
+            if got != want:
+                disagree('L0', case, impl, got, 'mutated concept')
+        elif what == 'ctor':
             if sorted(map(list, model[1])) != impl[1]:
                 disagree('L0', case, impl, model, 'constructed dataset')
         elif what == 'from_dataset':
@@ -481,6 +559,7 @@ def run(ctx):
     _constructor(ctx, reqs, pending)
     _from_dataset(ctx, reqs, pending)
     _from_code(ctx, objs, retired, reqs, pending)
+    _mutations(ctx, objs, alias, reqs, pending)
     answers = ctx.model(reqs)
     if answers is None:
         return
